@@ -41,6 +41,8 @@ def _slurp(fd):
 
 
 def parse_now(s):
+    if "." in s:
+        return shim._real_datetime.strptime(s, "%Y-%m-%dT%H:%M:%S.%f")
     return shim._real_datetime.strptime(s, "%Y-%m-%dT%H:%M:%S")
 
 
